@@ -454,13 +454,32 @@ namespace
         void op_resize(const Step& st)
         {
             int t = st.actor % 3;
-            static const char* const vn[] = {"n_value", "n"};
+            static const char* const vn[] = {"n_value", "n", "huge"};
             unsigned v = static_cast<unsigned>(st.d % 2);
+            // one in sixteen (custom allocator only: under ASan the global operator new aborts instead of throwing): a size
+            // no allocation can satisfy - near SIZE_MAX, where the block count computation itself is at its limit
+            if (alloc_faults && ((st.d >> 1) & 15) == 15) v = 2;
             Scope sc(*this, st, "resize", vn[v], t);
             size_t n = size_pick(st.a);
             bool val = st.b & 1;
             BSet& x = own[t].get();
             Model& m = om[t];
+            if (v == 2)
+            {
+                const size_t top = ~size_t(0);
+                const size_t huge[] = {top, top - 1, top - 6, top - (W - 1), top - W, top / 2 + 1, top - 63, top - 64};
+                size_t hn = huge[(st.a >> 8) % (sizeof(huge) / sizeof(huge[0]))];
+                bool threw = false;
+                unsigned how = static_cast<unsigned>((st.a >> 12) % 3);
+                try { Suspend s; if (how == 0) x.resize(hn, val); else if (how == 1) x.resize(hn); else x.assign(hn, val); }
+                catch (const std::length_error&) { threw = true; }
+                catch (const std::bad_alloc&) { threw = true; }
+                if (!threw) viol("model", "huge", "resize/assign to " + std::to_string(hn) + " bits returned normally; size() == " + std::to_string(x.size()) + ", block_count() == " + std::to_string(x.block_count()));
+                if (x.size() != m.size()) viol("model", "huge", "a refused resize/assign changed size() from " + std::to_string(m.size()) + " to " + std::to_string(x.size()));
+                SIM_PROBE("size_near_SIZE_MAX_refused");
+                check_all();
+                return;
+            }
             if (n > m.size() && val && v == 0 && m.size() % W) SIM_PROBE("grow_with_true_across_partial_block");
             if (n > m.size()) SIM_PROBE("grow");
             if (n == 0 && !m.empty()) SIM_PROBE("resize_to_zero");
